@@ -20,8 +20,22 @@ from . import kernel as K
 PROP = "C19"
 CXX = os.path.join(K.VERIF, "sim", "cxx")
 CV_VARIANTS = ["cvode_dense", "cvode_sparse", "cvode_cusparse"]
-VARIANTS = CV_VARIANTS + ["odeint"]
-NEQ = 5  # H, H2, H+, e- and the gas temperature (checked against the rendered macros at build time)
+# the same Solve template rendered for other kinds of network (no thermal equation, one species,
+# no reaction at all, grain chemistry): a template condition can make it wrong for one kind only
+EXTRA_VARIANTS = ["cvode_dense_plain", "cvode_dense_single", "cvode_dense_empty", "cvode_dense_grain", "cvode_sparse_grain",
+                  "cvode_cusparse_plain", "odeint_plain", "odeint_single"]
+VARIANTS = CV_VARIANTS + ["odeint"] + EXTRA_VARIANTS
+NEQ = 5  # base variants: H, H2, H+, e- and the gas temperature
+NEQV = {}  # NEQUATIONS of every variant, read from the rendered macros at build time
+Y0_BASE = [0.0, 0.25, 1.5, 7.0, 3.0, 0.5, 2.5, 11.0, 0.125]
+
+
+def is_odeint(v):
+    return v.startswith("odeint")
+
+
+def neq_of(v):
+    return NEQV.get(v, NEQ)
 
 RECOVERABLE = (-1, -2, -3, -4)
 RESET = (-6,)
@@ -59,13 +73,13 @@ def build(scratch):
         d = os.path.join(out, v)
         srcs = [os.path.join(d, "src", "naunet.cpp"), os.path.join(CXX, "driver.cpp")]
         defs = ["-DPYMODULE", "-DPYMODNAME=pymock"]
-        if v == "odeint":
+        if is_odeint(v):
             srcs += [os.path.join(d, "src", "naunet_ode.cpp"), os.path.join(d, "src", "naunet_constants.cpp"),
                      os.path.join(CXX, "mock_odeint.cpp")]
             defs += ["-DVARIANT_ODEINT"]
         else:
             srcs += [os.path.join(CXX, "mock_cvode.cpp")]
-            if v == "cvode_cusparse":
+            if v.startswith("cvode_cusparse"):
                 defs += ["-DNAUNET_VERIF_CUDA_SHIM"]
         cmd = ["g++", "-std=c++17", "-O1", "-w", "-I", os.path.join(d, "include"),
                "-I", os.path.join(CXX, "shim"), "-I", CXX, *defs, *srcs, "-o", os.path.join(d, "driver")]
@@ -78,10 +92,16 @@ def build(scratch):
             # a harness problem (or a C10 problem), never a C19 violation
             raise K.HarnessError(f"compile of {v} failed:\n{' '.join(cmd)}\n{o[-4000:]}")
         bins[v] = os.path.join(out, v, "driver")
-    # sanity: NEQUATIONS as assumed
-    mac = open(os.path.join(out, "cvode_dense", "include", "naunet_macros.h")).read()
-    if f"#define NSPECIES {NEQ - 1}" not in mac or "#define NCOOLPROCS 2" not in mac:
-        raise K.HarnessError("rendered NSPECIES / NCOOLPROCS differ from the simulator's assumption")
+    import re
+
+    for v in VARIANTS:
+        mac = open(os.path.join(out, v, "include", "naunet_macros.h")).read()
+        nsp = int(re.search(r"#define NSPECIES (\d+)", mac).group(1))
+        th = int(re.search(r"#define NHEATPROCS (\d+)", mac).group(1)) + int(re.search(r"#define NCOOLPROCS (\d+)", mac).group(1))
+        NEQV[v] = max(1, nsp + (1 if th else 0))
+    if NEQV["cvode_dense"] != NEQ:
+        raise K.HarnessError("rendered NEQUATIONS of the base variant differs from the simulator's assumption")
+    bins["__neq__"] = dict(NEQV)
     return bins
 
 
@@ -110,14 +130,14 @@ def gen_frac(rng):
     return rng.random()
 
 
-def gen_cv_solve(rng, knobs):
+def gen_cv_solve(rng, knobs, neq=NEQ):
     dt = gen_dt(rng)
     s = {
         "mode": 1 if rng.random() < knobs["p_pywrap"] else 0,
         "reset": 1 if rng.random() < 0.3 else 0,
         "mxsteps": rng.choice([1, 50, 500, 10000]),
         "dt": dt,
-        "y0c": [rng.choice(Y0_MULT) for _ in range(NEQ)],
+        "y0c": [rng.choice(Y0_MULT) for _ in range(neq)],
         "outcomes": [],
         "reinit_fail": [],
         "setup": [-1, 0],
@@ -160,7 +180,7 @@ def gen_cv_solve(rng, knobs):
     return s
 
 
-def gen_ode_solve(rng, knobs):
+def gen_ode_solve(rng, knobs, neq=NEQ):
     mx = rng.choice([1, 2, 5, 20, 100, 500])
     r = rng.random()
     if r < 0.15:
@@ -183,7 +203,7 @@ def gen_ode_solve(rng, knobs):
         "reset": 1 if rng.random() < 0.3 else 0,
         "mxsteps": mx,
         "dt": gen_dt(rng),
-        "y0c": [rng.choice(Y0_MULT) for _ in range(NEQ)],
+        "y0c": [rng.choice(Y0_MULT) for _ in range(neq)],
         "nsteps": n,
         "shape": rng.randrange(3),
         "throw_at": throw_at,
@@ -199,20 +219,21 @@ def gen_run(seed, index):
     rng = K.rng_for(seed, PROP, index)
     variant = VARIANTS[index % len(VARIANTS)]
     nsolve = rng.choices([1, 2, 3, 4], weights=[6, 2, 1, 1])[0]
-    if variant == "odeint":
+    neq = neq_of(variant)
+    if is_odeint(variant):
         knobs = {"p_pywrap": rng.choice([0.0, 0.3, 1.0]),
                  "kinds": [k for k in ["integrator_throw"] if rng.random() < 0.6]}
-        solves = [gen_ode_solve(rng, knobs) for _ in range(nsolve)]
+        solves = [gen_ode_solve(rng, knobs, neq) for _ in range(nsolve)]
         nsys = 1
     else:
         kinds = [k for k in ALL_CV_KINDS if rng.random() < 0.5]
         knobs = {"p_pywrap": rng.choice([0.0, 0.3, 1.0]), "kinds": kinds,
                  "p_fail": rng.choice([0.3, 0.6, 0.85, 0.97])}
-        solves = [gen_cv_solve(rng, knobs) for _ in range(nsolve)]
-        nsys = rng.choice([1, 2, 3]) if variant == "cvode_cusparse" else 1
+        solves = [gen_cv_solve(rng, knobs, neq) for _ in range(nsolve)]
+        nsys = rng.choice([1, 2, 3]) if variant.startswith("cvode_cusparse") else 1
         if nsys > 1:
             for s in solves:
-                s["y0c"] = [rng.choice(Y0_MULT) for _ in range(NEQ * nsys)]
+                s["y0c"] = [rng.choice(Y0_MULT) for _ in range(neq * nsys)]
     return {"variant": variant, "nsys": nsys, "solves": solves, "origin": ["seeded", seed, index]}
 
 
@@ -275,6 +296,31 @@ def ladder_stratum():
                     batch = []
         if batch:
             runs.append({"variant": variant, "nsys": 1, "solves": batch, "origin": ["tree", 3]})
+    # the other kinds of network: every one- and two-level combination, and the persistent failures
+    for variant in [v for v in EXTRA_VARIANTS if not is_odeint(v)]:
+        y0c = Y0_BASE[: neq_of(variant)]
+        batch = []
+        for depth in (1, 2):
+            for combo in itertools.product(opts, repeat=depth):
+                outcomes = []
+                for level, (fl, pos, fr) in enumerate(combo):
+                    g = 0 if pos == "first" else NSUB[level] - 1
+                    outcomes += [[0, 1.0]] * g + [[fl, fr]]
+                batch.append({"mode": len(batch) % 2, "reset": 0, "mxsteps": 500, "dt": 2.5e9, "y0c": list(y0c),
+                              "outcomes": outcomes, "reinit_fail": [], "setup": [-1, 0]})
+                if len(batch) == 4:
+                    runs.append({"variant": variant, "nsys": 1, "solves": batch, "origin": ["tree-extra", depth]})
+                    batch = []
+        for fl in (-1, -6, -5):
+            batch.append({"mode": 0, "reset": 0, "mxsteps": 500, "dt": 1e9, "y0c": list(y0c), "outcomes": [],
+                          "reinit_fail": [], "setup": [-1, 0], "tail": [fl, 0.5]})
+        runs.append({"variant": variant, "nsys": 1, "solves": batch, "origin": ["tree-extra", 0]})
+    for variant in [v for v in EXTRA_VARIANTS if is_odeint(v)]:
+        for mx in (1, 5, 100):
+            for n in (mx, mx + 1, 3 * mx):
+                runs.append({"variant": variant, "nsys": 1, "origin": ["budget-extra", mx, n], "solves": [
+                    {"mode": m, "reset": 0, "mxsteps": mx, "dt": 1e9, "y0c": Y0_BASE[: neq_of(variant)],
+                     "nsteps": n, "shape": 0, "throw_at": -1, "throw_kind": 0} for m in (0, 1)]})
     # odeint: budget boundary for every small budget, both entry points
     for mx in (1, 2, 3, 5, 20, 100, 500):
         for n in sorted({1, max(1, mx - 1), mx, mx + 1, mx + 2, 2 * mx, 10 * mx + 1}):
@@ -294,7 +340,7 @@ def encode_run(rid, run):
     for s in run["solves"]:
         y0 = [c * s["dt"] for c in s["y0c"]]
         head = f"solve {s['mode']} {s['reset']} {s['mxsteps']} {hexf(s['dt'])} {len(y0)} " + " ".join(hexf(v) for v in y0)
-        if run["variant"] == "odeint":
+        if is_odeint(run["variant"]):
             tail = f"{s['nsteps']} {s['shape']} {s['throw_at']} {s['throw_kind']}"
         else:
             tail = f"{len(s['outcomes'])} " + " ".join(f"{o[0]} {hexf(o[1])}" for o in s["outcomes"])
@@ -313,7 +359,7 @@ def parse_res(variant, toks):
     r = {"run": int(toks[1]), "k": int(toks[2]), "rc": int(toks[3]), "thrown": int(toks[4]),
          "other_exc": int(toks[5]), "mn": float.fromhex(toks[6]), "mx": float.fromhex(toks[7]),
          "logged": int(toks[8]), "note": int(toks[9])}
-    if variant == "odeint":
+    if is_odeint(variant):
         r.update(observer_calls=int(toks[10]), steps_done=int(toks[11]), threw=int(toks[12]), calls=int(toks[13]))
     else:
         r.update(n_cvode=int(toks[10]), n_reinit=int(toks[11]), consumed=int(toks[12]), capped=int(toks[13]),
@@ -346,7 +392,7 @@ def judge(variant, solve, res, mx_eff=None):
     success = res["rc"] == 0 and not res["other_exc"]
     if success and not advanced:
         bad.append("success-without-exact-interval")
-    if variant == "odeint":
+    if is_odeint(variant):
         if solve["nsteps"] > (mx_eff or solve["mxsteps"]) and success:
             bad.append("budget-exceeded-reported-as-success")
         return bad
@@ -480,7 +526,7 @@ def minimise(bins, workdir, run, k, clause):
         sv[k] = ns
         return dict(run, solves=sv)
 
-    if variant != "odeint":
+    if not is_odeint(variant):
         # 2. turn failures into successes / drop entries
         idx = [i for i, o in enumerate(s["outcomes"]) if o[0] < 0]
 
@@ -514,7 +560,7 @@ def minimise(bins, workdir, run, k, clause):
             c3 = dict(s, **{kk: c2[kk] for kk in c2})
             if fails(with_solve(c3), k):
                 s = c3
-    c2 = dict(s, y0c=[0.0, 0.25, 1.5, 7.0, 3.0] * run["nsys"])
+    c2 = dict(s, y0c=Y0_BASE[: neq_of(run["variant"])] * run["nsys"])
     if fails(with_solve(c2), k):
         s = c2
     return with_solve(s), k
@@ -620,7 +666,7 @@ def _worker(task):
                 stats["sim_time"] += s["dt"]
             else:
                 stats["fail_rc"] += 1
-            if v == "odeint":
+            if is_odeint(v):
                 if s["nsteps"] > mxe[k]:
                     stats["ode_budget_exceeded"] += 1
                     faulted = True
